@@ -4,13 +4,18 @@ From Fsn Require Import Conc.
 Local Open Scope nat_scope.
 
 Section Defs.
-  Context {E X D C R : Type}.
+  Context {E X D C R I K : Type}.
   Variable api : D → C → D * R.
   Variable closed_result : C → R.
-  Notation cstate := (@cstate E X D C R).
-  Notation rpc := (@rpc E X).
+  Variable pre : I → list (@msg E X).
+  Variable hnd : D → I → D * list (@msg E X).
+  Variable env : D → K → option D.
+  Notation cstate := (@cstate E X D C R I K).
+  Notation rpc := (@rpc E X I).
   Notation cpc := (@cpc C R).
-  Notation label := (@label E X C R).
+  Notation label := (@label C R I K).
+  Notation linent := (@linent E X C R I K).
+  Notation msg := (@msg E X).
 
   Definition reader_in_cs (p : rpc) : bool := match p with RInCs _ _ | RCsSend _ _ _ => true | _ => false end.
   Definition thread_in_cs (p : cpc) : bool := match p with CInCs _ | KInCs => true | _ => false end.
@@ -34,35 +39,79 @@ Section Defs.
     ci_waitresp_file : ∀ t, thr s !! t = Some KWaitResp → file_closed s = true;
   }.
 
-  (* ghost: everything the kernel handed to the reader, in order, as the messages it stands for *)
-  Fixpoint delivered (ls : list label) : list (@msg E X) :=
+  (* ghost: every item the kernel handed to the reader, in order *)
+  Fixpoint delivered (ls : list label) : list I :=
     match ls with
     | [] => []
-    | LKernel b :: ls' => concat (map item_msgs b) ++ delivered ls'
+    | LKernel b :: ls' => b ++ delivered ls'
     | _ :: ls' => delivered ls'
     end.
 
-  (* what the reader has taken from its current item list but not yet sent *)
-  Definition pending_msgs (p : rpc) : list (@msg E X) :=
+  (* the items of the reader's current batch it has not begun to process *)
+  Definition unstarted (p : rpc) : list I :=
     match p with
-    | RBatch items => concat (map item_msgs items)
-    | RPre ms it rest => ms ++ it_post it ++ concat (map item_msgs rest)
-    | RWantLock it rest | RInCs it rest => it_post it ++ concat (map item_msgs rest)
-    | RCsSend ms after rest => ms ++ after ++ concat (map item_msgs rest)
-    | RPost ms rest => ms ++ concat (map item_msgs rest)
+    | RBatch items => items
+    | RPre _ _ rest | RWantLock _ rest | RInCs _ rest | RCsSend _ _ rest | RPost _ rest => rest
     | _ => []
     end.
+
+  (* the item the reader has begun to process but not yet handled (its critical section has not run) *)
+  Definition cur_items (p : rpc) : list I :=
+    match p with RPre _ it _ | RWantLock it _ | RInCs it _ => [it] | _ => [] end.
+
+  (* the items the reader holds: handed over by the kernel, critical section not yet run *)
+  Definition held (p : rpc) : list I := cur_items p ++ unstarted p.
+
+  (* the messages the reader is still to send for the work whose messages are already determined: the rest of [pre] of
+     the item it has begun, or the rest of the [post] its critical section computed *)
+  Definition pending_msgs (p : rpc) : list msg :=
+    match p with
+    | RPre ms _ _ => ms
+    | RCsSend ms after _ => ms ++ after
+    | RPost ms _ => ms
+    | _ => []
+    end.
+
+  (* the items whose critical section has run, in that order, and the messages those items stand for: [pre i] followed
+     by the [post] computed by [hnd] at the moment of the critical section (recorded in lin) *)
+  Fixpoint handled_items (l : list linent) : list I :=
+    match l with
+    | [] => []
+    | LinHandle i _ :: l' => i :: handled_items l'
+    | _ :: l' => handled_items l'
+    end.
+  Fixpoint lin_msgs (l : list linent) : list msg :=
+    match l with
+    | [] => []
+    | LinHandle i post :: l' => pre i ++ post ++ lin_msgs l'
+    | _ :: l' => lin_msgs l'
+    end.
+
+  (* THE STREAM: everything the reader is committed to send, in order — pre and post of the handled items, then pre of
+     the item(s) begun but not handled (at most one, see started_shape) *)
+  Definition stream (s : cstate) : list msg :=
+    lin_msgs (lin s) ++ concat (map pre (drop (length (handled_items (lin s))) (started s))).
 
   Definition only_threads (ls : list label) : Prop := Forall (λ l, match l with LThr _ => True | _ => False end) ls.
   Definition no_consumer (ls : list label) : Prop :=
     Forall (λ l, match l with LConsumeEv | LConsumeEr => False | _ => True end) ls.
 
-  (* sequential replay of the API calls in linearisation order *)
-  Fixpoint seq_run (d : D) (cs : list (C * R)) : option D :=
-    match cs with
+  (* sequential replay of everything that touched the data, in linearisation order: API calls, the reader's critical
+     sections, environment steps (which must be allowed where they are replayed) *)
+  Fixpoint seq_run (d : D) (l : list linent) : option D :=
+    match l with
     | [] => Some d
-    | (c, r) :: cs' => let '(d', _) := api d c in seq_run d' cs'
+    | LinCall c _ :: l' => seq_run (api d c).1 l'
+    | LinHandle i _ :: l' => seq_run (hnd d i).1 l'
+    | LinEnv k :: l' => match env d k with Some d' => seq_run d' l' | None => None end
     end.
-  Definition seq_results_ok (d : D) (cs : list (C * R)) : Prop :=
-    ∀ pre c r post, cs = pre ++ (c, r) :: post → ∃ d1, seq_run d pre = Some d1 ∧ (api d1 c).2 = r.
+  (* … and every recorded result / message list is what the sequential semantics returns at that point *)
+  Definition entry_ok (d1 : D) (e : linent) : Prop :=
+    match e with
+    | LinCall c r => (api d1 c).2 = r
+    | LinHandle i post => (hnd d1 i).2 = post
+    | LinEnv k => is_Some (env d1 k)
+    end.
+  Definition seq_results_ok (d : D) (l : list linent) : Prop :=
+    ∀ l1 e l2, l = l1 ++ e :: l2 → ∃ d1, seq_run d l1 = Some d1 ∧ entry_ok d1 e.
 End Defs.
